@@ -346,6 +346,23 @@ class Run:
                 na1, sa1, nq1 = congr.discover_aliases(cur, pc_core if len(pc_core) != len(pc) else pc, solve=_solve, both_sides=impl_fn is not None)
                 nq += nq1
                 na1 = {k: v for k, v in na1.items() if k not in na}
+                # a model that refutes a local lemma (e.g. "the impl's next counter == the reference's next counter") is a prime
+                # candidate for a global counterexample: evaluate the whole obligation under it
+                for asg in list(congr.REFUTERS):
+                    names_, _ = T.support([x for pr in pairs for x in pr] + [c for c, v in pc])
+                    full_ = {n_: asg.get(n_, 0) for n_ in names_}
+                    ev_ = T.Evaluator(full_)
+                    if all(ev_.val(c) == (1 if v else 0) for c, v in pc) and any(ev_.val(g) != ev_.val(e) for g, e in pairs):
+                        ob = Obligation(name)
+                        ob.key = key or name
+                        ob.n_pairs = len(pairs)
+                        ob.n_identical = sum(1 for g, e in pairs if g == e)
+                        ob.status = 'sat'
+                        ob.model = full_
+                        ob.solver_s = time.time() - t0
+                        ob.detail = 'counterexample of a refuted small-cone lemma, evaluated on the whole obligation'
+                        STATS['sat_by_lemma_refuter'] = STATS.get('sat_by_lemma_refuter', 0) + 1
+                        return self.add(ob)
                 if os.environ.get('VERIF_DEBUG'):
                     print('DEBUG round %d: discovered %d node + %d slice aliases with %d queries, %.1fs' % (rnd, len(na1), sum(len(v) for v in sa1.values()), nq1, time.time() - t0), flush=True)
                     for k_, v_ in na1.items():
